@@ -122,7 +122,7 @@ def mkreq(r, proto):
     return rt.mk_ietf(bytes(r.getrandbits(8) for _ in range(32)), 1024)
 
 
-def closed_loop(port, r_seed, nclients, rounds, stop_evt=None, per_timeout=4.0, barrier=False, freeze_pid=None):
+def closed_loop(port, r_seed, nclients, rounds, stop_evt=None, per_timeout=4.0, barrier=False, freeze_pid=None, only_proto=None):
     """nclients concurrent closed-loop reference clients; returns list of (proto, request, [replies]).
     barrier=True: the clients of a round send together (a burst of nclients datagrams, far more than
     batch_size when that is small), then all wait for their replies. With freeze_pid the server
@@ -168,7 +168,7 @@ def closed_loop(port, r_seed, nclients, rounds, stop_evt=None, per_timeout=4.0, 
         for k in range(rounds):
             if stop_evt is not None and stop_evt.is_set():
                 break
-            proto = "Google" if (ci + k) % 2 else "RfcDraft13"
+            proto = only_proto or ("Google" if (ci + k) % 2 else "RfcDraft13")
             # (same RNG consumption as mkreq)
             nonce = bytes(r.getrandbits(8) for _ in range(64 if proto == "Google" else 32))
             req = rt.mk_classic(nonce) if proto == "Google" else rt.mk_ietf(nonce, 1024)
@@ -353,6 +353,9 @@ def run_c18(ctx):
     plan += [(1, 32, {"batch_size": 2}, rounds), (4, 48, {"batch_size": 2}, rounds),
              (1, 32, {"batch_size": 4, "_burst": 1}, 5), (4, 48, {"batch_size": 2, "_burst": 1}, 5),
              (2, 64, {"batch_size": 64, "_burst": 1}, 5),
+             # FULL batches of one protocol on one worker (64 leaves: the deepest tree the server ever builds)
+             # (70 datagrams of 1 KB fit one socket's receive buffer while the server is frozen; 100 do not)
+             (1, 70, {"batch_size": 64, "_burst": 1, "_proto": "Google"}, 3), (1, 70, {"batch_size": 64, "_burst": 1, "_proto": "RfcDraft13"}, 3),
              # clients with several requests in flight from one socket (same source address in one batch)
              (1, 6, {"batch_size": 64, "_pipe": 4}, 4), (4, 12, {"batch_size": 8, "_pipe": 3}, 4),
              (4, 24, {"batch_size": 64, "client_stats": "on", "persistence_directory": workdir, "status_interval": 1}, 60),
@@ -361,6 +364,7 @@ def run_c18(ctx):
         extra = dict(extra)
         burst = bool(extra.pop("_burst", 0))
         pipe = int(extra.pop("_pipe", 0))
+        only_proto = extra.pop("_proto", None)
         srv = Server(dict({"num_workers": nw}, **extra), workdir=workdir)
         rep = {"cmd": "load", "settings": {k: str(v) for k, v in srv.settings.items()}, "clients": nc, "rounds": rounds}
         try:
@@ -369,7 +373,7 @@ def run_c18(ctx):
             if pipe:
                 res = pipelined_clients(srv.port, ctx.seed * 100 + nw, nc, pipe, rounds)
             else:
-                res = closed_loop(srv.port, ctx.seed * 100 + nw, nc, rounds, barrier=burst, freeze_pid=srv.p.pid if burst else None)
+                res = closed_loop(srv.port, ctx.seed * 100 + nw, nc, rounds, barrier=burst, freeze_pid=srv.p.pid if burst else None, only_proto=only_proto)
             rep["burst"] = burst; rep["in_flight_per_client"] = pipe
             th = srv.threads()
             workers = sorted({t for t in th if t.startswith("worker-")})   # the timer thread of each worker shares its name
@@ -601,6 +605,52 @@ def health_accept_fault(ctx, workdir):
         rc, dt, log = srv.stop()
 
 
+def shutdown_during_accept_fault(ctx, workdir):
+    """the signal arrives while a health-check connection is pending that accept() cannot take (EMFILE: the
+    process is at its descriptor limit): the worker must still come round to testing the flag"""
+    import resource
+    for sig in (signal.SIGTERM, signal.SIGINT):
+        srv = Server({"num_workers": 1, "health_check_port": "auto"}, workdir=workdir)
+        rep = {"cmd": "shutdown-accept-fault", "signal": int(sig), "settings": {k: str(v) for k, v in srv.settings.items()}}
+        stopped = False
+        try:
+            if not srv.wait_ready():
+                ctx.violation("property", "server with a health port did not start serving", dict(rep, log=srv.log()[-800:])); continue
+            pid = srv.p.pid
+            nfds = len(os.listdir("/proc/%d/fd" % pid))
+            old = resource.prlimit(pid, resource.RLIMIT_NOFILE)
+            resource.prlimit(pid, resource.RLIMIT_NOFILE, (nfds, old[1]))
+            conn = None
+            try:
+                conn = socket.create_connection(("127.0.0.1", srv.health), timeout=1.0)
+            except OSError:
+                pass
+            time.sleep(0.3)
+            t0 = time.time()
+            os.kill(pid, sig)
+            try:
+                rc = srv.p.wait(timeout=6.0)
+            except subprocess.TimeoutExpired:
+                rc = None
+            dt = time.time() - t0
+            if conn is not None:
+                try:
+                    conn.close()
+                except OSError:
+                    pass
+            ctx.evaluations += 1
+            if rc is None:
+                ctx.violation("property", "signal %d while a health-check connection is pending that accept() cannot take (EMFILE): the process is still alive %.1f s later" % (int(sig), dt),
+                              dict(rep, log=srv.log()[-600:]))
+            elif rc != 0:
+                ctx.violation("property", "signal %d during an accept() fault: exit status %s" % (int(sig), rc), dict(rep, log=srv.log()[-600:]))
+            else:
+                ctx.traces_validated += 1
+                ctx.nontriv("shutdown-accept-fault:%d" % int(sig))
+        finally:
+            srv.stop(sig=signal.SIGKILL) if srv.p.poll() is None else srv.stop()
+
+
 # ------------------------------------------------------------------ C19
 
 def run_c19(ctx):
@@ -624,6 +674,12 @@ def run_c19(ctx):
     cases.append((signal.SIGTERM, 2, False, "idle", 7.0))
     cases.append((signal.SIGINT, 1, True, "idle", 7.0))
     cases.append((signal.SIGTERM, 4, False, "flood", 0.2))
+    # per-client statistics published every 100 ms (status_interval 1) under continuous load for longer than the
+    # shared queue can absorb without the reporter (2 slots per worker, drained once a second): the signal
+    # arrives while the workers are publishing
+    cases.append((signal.SIGINT, 1, True, "statload", 0.65))
+    cases.append((signal.SIGTERM, 1, True, "statload", 0.85))
+    cases.append((signal.SIGTERM, 2, True, "statload", 1.3))
     # a worker that has only seen datagrams it rejects (requests counted, nothing sent) when the signal comes
     cases.append((signal.SIGTERM, 1, False, "junk", 0.2))
     cases.append((signal.SIGINT, 2, True, "junk", 0.2))
@@ -642,6 +698,8 @@ def run_c19(ctx):
             si = (None, 10, 1)[(int(sig) + nw + int(delay * 100)) % 3]      # None: the documented default, 600 s
             if delay >= 5:
                 si = None
+            if mode == "statload":
+                si = 1
             if si is not None:
                 settings["status_interval"] = si
         if mode == "halfopen":
@@ -655,7 +713,7 @@ def run_c19(ctx):
         try:
             out["ready"] = srv.wait_ready()
             th = None
-            if mode == "load":
+            if mode in ("load", "statload"):
                 th = threading.Thread(target=lambda: res.extend(closed_loop(srv.port, int(delay * 1000) + nw, 8, 400, stop_evt, per_timeout=0.4)))
                 th.start()
             elif mode == "flood":
@@ -723,6 +781,7 @@ def run_c19(ctx):
     verify_pairs(ctx, allpairs, {"cmd": "signal"}, "replies emitted before exit")
     ctx.count("replies_before_exit_verified", len(allpairs))
     ctx.sample({"case": outs[0]["case"], "rc": str(outs[0].get("rc")), "dt": round(outs[0].get("dt", -1), 3)})
+    shutdown_during_accept_fault(ctx, workdir)
     import shutil
     shutil.rmtree(workdir, ignore_errors=True)
     proof_verdict(ctx)
